@@ -59,6 +59,25 @@ fn main() {
                 println!("{}", n);
             }
         }
+        "kinds" => {
+            // union of node kinds over all accepted corpus programs (coverage ceiling of the corpus)
+            let verif = arg(&args, "--verif").unwrap_or("/verif").to_string();
+            let c = corpus::Corpus::load(&format!("{}/corpus/spec.txt", verif));
+            let mut kinds = std::collections::BTreeSet::new();
+            let mut acc = 0;
+            for p in &c.programs {
+                if let Ok(Ok((t, _))) = api::parse_str(api::Gram::Sv, p, std::path::Path::new("k.sv"), &api::Cfg::default()) {
+                    acc += 1;
+                    for n in &t {
+                        kinds.insert(n.to_string());
+                    }
+                }
+            }
+            eprintln!("{} accepted programs, {} kinds", acc, kinds.len());
+            for k in kinds {
+                println!("{}", k);
+            }
+        }
         "k5enum" => props::c13::k5enum(arg(&args, "--verif").unwrap_or("/verif")),
         "memo" => {
             let mut src = String::new();
@@ -139,6 +158,7 @@ fn run(args: &[String]) {
         tmpdir: tmpdir.clone(),
         out,
         verbose,
+        kind_hashes: HashSet::new(),
     };
 
     let total = cases_override.unwrap_or_else(|| props::cases(&prop, tier));
